@@ -499,6 +499,46 @@ def rename_private_params(sources: Dict[str, str]) -> Dict[str, str]:
     return out
 
 
+def alias_self_context(sources: Dict[str, str]) -> Dict[str, str]:
+    """`ctx_ = self.context` at the start of every method that only reads self.context (at least twice, never
+    assigns it, calls neither set_context / setContext nor a super().__call__), and `ctx_` used instead."""
+    out = {}
+    for p, s in sources.items():
+        tree = ast.parse(s)
+        for fn in ast.walk(tree):
+            if not isinstance(fn, (ast.FunctionDef, ast.AsyncFunctionDef)) or not fn.args.args or fn.args.args[0].arg != "self":
+                continue
+            uses, bad = [], False
+            for n in ast.walk(fn):
+                if isinstance(n, ast.Attribute) and n.attr == "context" and isinstance(n.value, ast.Name) and n.value.id == "self":
+                    if isinstance(n.ctx, ast.Load):
+                        uses.append(n)
+                    else:
+                        bad = True
+                if isinstance(n, ast.Call):
+                    cn = n.func.attr if isinstance(n.func, ast.Attribute) else n.func.id if isinstance(n.func, ast.Name) else ""
+                    if cn in ("set_context", "setContext", "__call__", "write"):
+                        bad = True
+                if isinstance(n, (ast.FunctionDef, ast.AsyncFunctionDef, ast.Lambda)) and n is not fn:
+                    bad = True  # closures: leave alone
+            if bad or len(uses) < 2:
+                continue
+
+            class R(ast.NodeTransformer):
+                def visit_Attribute(self, node):
+                    self.generic_visit(node)
+                    if node.attr == "context" and isinstance(node.value, ast.Name) and node.value.id == "self" and isinstance(node.ctx, ast.Load):
+                        return ast.copy_location(ast.Name(id="ctx_", ctx=ast.Load()), node)
+                    return node
+            fn.body = [R().visit(st) for st in fn.body]
+            first = 1 if fn.body and isinstance(fn.body[0], ast.Expr) and isinstance(fn.body[0].value, ast.Constant) and isinstance(fn.body[0].value.value, str) else 0
+            fn.body.insert(first, ast.Assign(targets=[ast.Name(id="ctx_", ctx=ast.Store())],
+                                             value=ast.Attribute(value=ast.Name(id="self", ctx=ast.Load()), attr="context", ctx=ast.Load())))
+        ast.fix_missing_locations(tree)
+        out[p] = ast.unparse(tree)
+    return out
+
+
 def rename_all_locals(sources: Dict[str, str]) -> Dict[str, str]:
     out = {}
     for p, s in sources.items():
@@ -564,6 +604,8 @@ def _worker(args):
             overlay = positional_at_call_sites(sources)
         elif m.old == "<rename-private-params>":
             overlay = rename_private_params(sources)
+        elif m.old == "<alias-self-context>":
+            overlay = alias_self_context(sources)
         elif m.old == "<keywords-at-call-sites>":
             overlay = keywords_at_call_sites(sources)
         elif m.old == "<swap-if-else>":
@@ -609,6 +651,7 @@ GENERIC = [
     M("positional arguments of package calls written as keywords", "", None, "<keywords-at-call-sites>", "", kind="equiv"),
     M("leading keyword arguments of package calls written positionally", "", None, "<positional-at-call-sites>", "", kind="equiv"),
     M("rename every parameter of every private function / method (keyword arguments at call sites follow)", "", None, "<rename-private-params>", "", kind="equiv"),
+    M("alias self.context into a local at the start of every method that only reads it", "", None, "<alias-self-context>", "", kind="equiv"),
     M("methods of every class in reverse source order", "", None, "<reverse-methods>", "", kind="equiv"),
     M("swap the branches of every plain if/else under the negated test", "", None, "<swap-if-else>", "", kind="equiv"),
     M("annotate every local that is assigned once (x = v  ->  x: object = v)", "", None, "<annotate-single-assignments>", "", kind="equiv"),
